@@ -46,7 +46,7 @@ def gen_cases(ctx):
     cases = [{"kind": "direct", "sym": [-1, 0, 1], "vol": [[0, 8], [0, 6], [0, 10]], "boxes": [[[2, 7], [1, 3], [5, 9]], [[0, 3], [0, 6], [0, 10]]]},
              {"kind": "direct", "sym": [0, 1, 0], "vol": [[0, 8], [0, 7], [0, 10]], "boxes": []},
              {"kind": "place", "sym": [-1, 1, 0], "shape": [8, 6, 10], "boxes": [[[1, 7], [0, 3], [2, 5]], [[0, 4], [3, 6], [0, 10]]]}]
-    for i in range(ctx.pick(300, 4000)):
+    for i in range(ctx.pick(200, 4000)):
         sym = list(SYMS[i % 27]) if i % 5 else [rng.choice([-1, 0, 1]) for _ in range(3)]
         vol = []
         for a in range(3):
@@ -56,7 +56,7 @@ def gen_cases(ctx):
         nb = rng.randint(0, 6)
         boxes = [rbox(rng, vol, rng.random() < 0.8) for _ in range(nb)] if all(h > l for l, h in vol) else []
         cases.append({"kind": "direct", "sym": sym, "vol": vol, "boxes": boxes, "vol_pos": rng.randint(0, nb)})
-    for i in range(ctx.pick(10, 120)):
+    for i in range(ctx.pick(8, 120)):
         sym = list(SYMS[(7 * i + 3) % 27])
         shape = [rng.choice([4, 6, 8, 10]) if rng.random() < 0.9 else rng.choice([5, 7]) for _ in range(3)]
         vol = [[0, s] for s in shape]
@@ -115,7 +115,7 @@ def predicate(case, out):
     n = [h - l for l, h in vol]
     must_fail = any(sym[a] != 0 and (n[a] < 2 or n[a] % 2) for a in range(3))
     if "error" in out:
-        if not must_fail and not (case["kind"] == "place" and "symmetr" not in out["error"].lower() and False):
+        if not must_fail:
             return (key, f"unexpected error for counts {n}, symmetry {sym}: {out['error']}")
         return None
     if must_fail:
